@@ -221,6 +221,7 @@ def build(profiles=("dev", "release"), repo=None):
             need.append(p)
     if not need:
         return out
+    _prune_target(os.path.join(frontend.CACHE, "target-replay"))
     scratch = frontend.make_scratch(repo, "replay")
     try:
         rdir = os.path.join(scratch, "_verif_replay")
@@ -264,6 +265,17 @@ def build(profiles=("dev", "release"), repo=None):
     finally:
         shutil.rmtree(scratch, ignore_errors=True)
     return out
+
+
+def _prune_target(tdir, limit_gb=6.0):
+    """Every tree gets its own scratch path, hence its own fingerprints in the shared cargo target directory: it grew to
+    129 GB over ~1500 changed trees and filled the disk.  Above the limit the directory is dropped (a rebuild is ~20 s)."""
+    try:
+        out = subprocess.run(["du", "-s", "-B1", tdir], stdout=subprocess.PIPE, stderr=subprocess.DEVNULL, text=True, timeout=60).stdout
+        if out and int(out.split()[0]) > limit_gb * (1 << 30):
+            shutil.rmtree(tdir, ignore_errors=True)
+    except Exception:
+        pass
 
 
 def run(scenario, profiles=("dev", "release"), repo=None, timeout=60):
